@@ -4,7 +4,7 @@
 set -e
 id=$1
 ID=$(echo "$id" | tr a-z A-Z)
-V=/verif
+V=${VERIF_HOME:-/verif}
 COQ=${2:-$V/coq}
 WS=${3:-$V/build/main}
 d=$WS/ocaml/$id
